@@ -47,12 +47,13 @@ type cbReq struct {
 }
 
 type cbConfig struct {
-	expr        string
-	fallback    time.Duration
-	recovery    time.Duration
-	checkPeriod time.Duration
-	fine        bool
-	sideEffects bool
+	expr         string
+	fallback     time.Duration
+	recovery     time.Duration
+	checkPeriod  time.Duration
+	fine         bool
+	sideEffects  bool
+	fallbackKind int // 0 plain 503, 1 cbreaker.ResponseFallback, 2 cbreaker.RedirectFallback
 }
 
 type countingEffect struct{ n int }
@@ -74,6 +75,7 @@ type cbWorld struct {
 	inHandler        int
 	maxInHand        int
 	tripWithInFlight int
+	fallbackStatus   int
 }
 
 func newWorld(r *simkit.Run, cfg cbConfig) *cbWorld {
@@ -102,10 +104,31 @@ func newWorld(r *simkit.Run, cfg cbConfig) *cbWorld {
 		}
 		_, _ = rw.Write([]byte("body"))
 	})
+	// the fallback is one of oxy's own fallback handlers (or a plain 503) behind a wrapper that notes that it ran
+	var realFallback http.Handler
+	w.fallbackStatus = http.StatusServiceUnavailable
+	switch cfg.fallbackKind {
+	case 1:
+		rf, err := cbreaker.NewResponseFallback(cbreaker.Response{StatusCode: 418, ContentType: "text/plain", Body: []byte("breaker open")})
+		if err != nil {
+			r.T.Fatalf("response fallback: %v", err)
+		}
+		realFallback, w.fallbackStatus = rf, 418
+	case 2:
+		rf, err := cbreaker.NewRedirectFallback(cbreaker.Redirect{URL: "http://standby.example/", PreservePath: true})
+		if err != nil {
+			r.T.Fatalf("redirect fallback: %v", err)
+		}
+		realFallback, w.fallbackStatus = rf, http.StatusFound
+	}
 	fallback := http.HandlerFunc(func(rw http.ResponseWriter, req *http.Request) {
 		q := req.Context().Value(ctxKey{}).(*cbReq)
 		q.outcome = "fallback"
 		q.decSeq = q.task.LastAcq
+		if realFallback != nil {
+			realFallback.ServeHTTP(rw, req)
+			return
+		}
 		rw.WriteHeader(http.StatusServiceUnavailable)
 	})
 	opts := []cbreaker.Option{cbreaker.FallbackDuration(cfg.fallback), cbreaker.RecoveryDuration(cfg.recovery), cbreaker.CheckPeriod(cfg.checkPeriod), cbreaker.Fallback(fallback)}
